@@ -184,6 +184,8 @@ def check_error_mapping(prog, r):
     r.analysed(prog.name(rs))
     n = 0
     for what, rx in (("try_parse", r"rustybgp_packet::bgp::PeerCodec::try_parse"), ("validate_message", r"rustybgp_packet::bgp::validate_message")):
+        from ..util import body_holding
+        fv = body_holding(prog, rs, rx)
         calls = fv.calls(re.compile(rx))
         if not calls:
             r.unanalysable("run_select: no call of %s" % what, fv.loc())
